@@ -44,6 +44,11 @@ def setup_worker():
     W.install()
 
 
+def same_cands(a, b):
+    """candidate lists (triple, weight) equal up to float rounding of list sums"""
+    return len(a) == len(b) and all(x[0] == y[0] and abs(x[1] - y[1]) <= 1e-12 * max(abs(x[1]), abs(y[1]), 1e-300) for x, y in zip(a, b))
+
+
 def law_vector(cands, bond):
     """lawful probability per candidate index (0 for excluded) for a weighted pick among candidates compatible with `bond`"""
     idx = [i for i, c in enumerate(cands) if bond is None or compat(tuple(bond), tuple(c[0]))]
@@ -116,10 +121,11 @@ def check_decisions(subj, events, cnt, viol, label):
             pending = []
             if not ccws:
                 continue
-            rep = sorted(((d.triple, d.weight) for t in win.repeats for d in t.descs), key=repr)
-            end = sorted(((d.triple, d.weight) for t in win.ends for d in t.descs), key=repr)
+            skey = lambda x: (repr(x[0]), float(f"{x[1]:.9e}"))  # noqa: E731  (robust against rounding of list sums)
+            rep = sorted(((d.triple, d.weight) for t in win.repeats for d in t.descs), key=skey)
+            end = sorted(((d.triple, d.weight) for t in win.ends for d in t.descs), key=skey)
             partner = ccws[-1]
-            pc = sorted(((tuple(c[0]), c[1]) for c in partner["cands"]), key=repr)
+            pc = sorted(((tuple(c[0]), c[1]) for c in partner["cands"]), key=skey)
             if partner["bond"] is None:
                 # the partner came from a transition list: the last raw choice must carry the chosen open descriptor's list
                 opick = partner
@@ -137,10 +143,10 @@ def check_decisions(subj, events, cnt, viol, label):
                     if not is_growth:
                         viol.append({"cls": "c08.insitu.list-used-for-capping", "msg": "a transition list was used for a capping pick", "text": subj.text, "label": label})
             elif is_growth:
-                if pc != rep:
+                if not same_cands(pc, rep):
                     viol.append({"cls": "c08.insitu.growth-candidates-not-repeat-units", "msg": f"growth partner was picked among {pc}, the object's repeat-unit descriptors are {rep}", "text": subj.text, "label": label})
             else:
-                if pc != end:
+                if not same_cands(pc, end):
                     viol.append({"cls": "c08.insitu.capping-candidates-not-end-groups", "msg": f"capping partner was picked among {pc}, the object's end-group descriptors are {end}", "text": subj.text, "label": label})
     return nondeg, nonuni
 
@@ -154,7 +160,7 @@ def run_case(case):
         subj = None
         for attempt in range(10):
             try:
-                forced = [0.4, 1.1, 1.6] if case["arch"] in ("star", "hyper", "graft", "stepgrowth") else [0.4, 1.1, 2.2, 3.1]
+                forced = [0.4, 1.1, 1.6] if case["arch"] in ("star", "hyper", "graft", "stepgrowth", "comb") else [0.4, 1.1, 2.2, 3.1]
                 s = W.Subject(case["seed"] * 17 + attempt, arch=case["arch"], small=True, forced=forced)
             except ValueError:
                 continue
